@@ -36,7 +36,9 @@ const MODELS_THOROUGH: u64 = 10000;
 
 fn load(env: &Env, text: &str) -> Result<Result<v1::Instance, String>, PanicInfo> {
     std::fs::create_dir_all(&env.scratch).expect("harness: scratch directory");
-    let path = env.scratch.join("c19.qplib");
+    // the file name is immaterial (chosen by the content, so that a replay takes the same one)
+    let h = text.bytes().fold(7u32, |h, b| h.wrapping_mul(131).wrapping_add(b as u32));
+    let path = env.scratch.join(["c19.qplib", "c19.QPLIB", "c19", "c19.qplib.txt", "c19 (1).lp"][(h % 5) as usize]);
     std::fs::write(&path, text.as_bytes()).expect("harness: write qplib file");
     // one text in five (chosen by its content, so that a replay takes the same path) goes through
     // load_file_bytes and is decoded again
